@@ -243,7 +243,9 @@ static void ProcessFile(char const* FileName, LongWord Offset) {
                 FormatError(FileName, getmessage(Num_FormatInvRecordLenMsg));
             }
 
-            doit = (FilterOK(InpCPU) && (InpSegment == ValidSegment));
+            /* a record without a complete address unit selects nothing */
+
+            doit = (FilterOK(InpCPU) && (InpSegment == ValidSegment) && (InpLen >= Gran));
 
             if (doit) {
                 InpStart += Offset;
@@ -392,7 +394,7 @@ static void MeasureFile(char const* FileName, LongWord Offset) {
                 FormatError(FileName, getmessage(Num_FormatInvRecordLenMsg));
             }
 
-            if (FilterOK(CPU) && (Segment == ValidSegment)) {
+            if (FilterOK(CPU) && (Segment == ValidSegment) && (Length >= Gran)) {
                 Adr += Offset;
                 EndAdr = Adr + (Length / Gran) - 1;
                 if (Gran > MaxGran) {
